@@ -3,8 +3,10 @@ package c15
 import (
 	"fmt"
 	"math/rand/v2"
+	"net/url"
 	"path"
 	"strings"
+	"sync"
 
 	"verif/harness/lib"
 
@@ -232,6 +234,7 @@ func (s *seqCtx) judge(d opDesc, o obs) {
 	s.r.Count(fmt.Sprintf("%s.lookup.%s.%s-%s.%s", s.t.fixture, d.ns, d.via, d.method, o.kind))
 	s.r.Distinct(s.t.fixture, s.t.cfg, d.ns, d.via, d.method, instClass(s, d.inst), exp, o.kind, s.keyClass(d.key))
 	s.logf("%s -> %s (expected %s)", d, o, sl.describe())
+	noteInstance(s.mangleName()+" "+instClass(s, d.inst), d.ns+"."+o.kind+"(map:"+exp+")")
 
 	if o.kind == "transport" {
 		s.r.Count(s.t.fixture + ".transport-error")
@@ -300,6 +303,21 @@ func (s *seqCtx) keyInfo(hash string) keyInfo {
 		}
 	}
 	return keyInfo{hash: hash}
+}
+
+// instance-class x (namespace, outcome, expectation) hit matrix for the evidence file.
+var (
+	instMu     sync.Mutex
+	instMatrix = map[string]map[string]int{}
+)
+
+func noteInstance(row, col string) {
+	instMu.Lock()
+	if instMatrix[row] == nil {
+		instMatrix[row] = map[string]int{}
+	}
+	instMatrix[row][col]++
+	instMu.Unlock()
 }
 
 // ---------------------------------------------------------------------------
@@ -462,7 +480,7 @@ func (s *seqCtx) store(ns string, key keyInfo, inst instInfo, via string, bad bo
 			// no preimage known / corrupted content: the store must be refused
 			bad = true
 			if data == nil {
-				data = lib.GenBlob(rng, 1+rng.IntN(600), "random", s.tag("junk"))
+				data = lib.GenBlob(rng, minBlob+rng.IntN(600), "random", s.tag("junk"))
 			} else {
 				data = append([]byte(nil), data...)
 				data[rng.IntN(len(data))] ^= 0x20
@@ -588,25 +606,26 @@ func (s *seqCtx) randomStore(bad bool) {
 // ---------------------------------------------------------------------------
 // Unclean paths: never followed, never judged beyond "must not alias".
 
-type uncleanT struct {
-	tmpl    string // K = key
-	literal string // instance a server that does not clean paths would see ("-": unparsable)
-}
-
-var uncleanPaths = []uncleanT{
-	{"//ac/K", ""},
-	{"/a//b/ac/K", "a//b"},
-	{"/a//ac/K", "a/"},
-	{"/a/../ac/K", "a/.."},
-	{"/a/./ac/K", "a/."},
-	{"/../ac/K", ".."},
-	{"/a/b/../ac/K", "a/b/.."},
-	{"/a/ac/../ac/K", "a/ac/.."},
-	{"/cas/../ac/K", "cas/.."},
-	{"/ac//K", "-"},
-	{"/ac/../cas/K", "ac/.."},
-	{"/a//cas/K", "a/"},
-	{"/b/../a/ac/K", "b/../a"},
+// uncleanShapes are path shapes built from the sequence's own instance names
+// (I, J): a sloppy normaliser would map them onto a slot that is neither the
+// literal nor the cleaned name. Tokens: I/J instance names, D the namespace
+// directory (ac|cas), K the key, "" an empty segment.
+var uncleanShapes = [][]string{
+	{"", "D", "K"},
+	{"I", "", "D", "K"},
+	{"I", "..", "D", "K"},
+	{"I", ".", "D", "K"},
+	{"..", "D", "K"},
+	{"I", "..", "J", "D", "K"},
+	{"J", "..", "I", "D", "K"},
+	{"", "I", "D", "K"},
+	{"I", "", "J", "D", "K"},
+	{"I", "D", "..", "D", "K"},
+	{"cas", "..", "ac", "K"},
+	{"ac", "..", "cas", "K"},
+	{"I", "ac", "..", "cas", "K"},
+	{"D", "", "K"},
+	{"I", "J", "..", "..", "D", "K"},
 }
 
 // parseClean maps a cleaned path back to (dir, instance).
@@ -622,11 +641,55 @@ func parseClean(p string) (dir, inst string, ok bool) {
 	return dir, strings.Join(segs[:len(segs)-2], "/"), true
 }
 
-func (s *seqCtx) uncleanOp() {
+func (s *seqCtx) uncleanOp(readOnly bool) {
 	rng := s.rng
-	u := lib.Pick(rng, uncleanPaths)
+	shape := lib.Pick(rng, uncleanShapes)
 	key := lib.Pick(rng, s.keys)
-	p := strings.ReplaceAll(u.tmpl, "K", key.hash)
+	var named []string
+	for _, i := range s.insts {
+		if i.httpOK && i.name != "" {
+			named = append(named, i.name)
+		}
+	}
+	named = append(named, "a", "b")
+	iName, jName := lib.Pick(rng, named), lib.Pick(rng, named)
+	dir := lib.Pick(rng, []string{"ac", "ac", "ac", "cas"})
+	var dec, esc []string // decoded and URL-escaped segments
+	add := func(seg string) {
+		dec = append(dec, seg)
+		esc = append(esc, url.PathEscape(seg))
+	}
+	ldir := dir
+	for _, tok := range shape {
+		switch tok {
+		case "I", "J":
+			n := iName
+			if tok == "J" {
+				n = jName
+			}
+			for _, sg := range strings.Split(n, "/") {
+				add(sg)
+			}
+		case "D":
+			add(dir)
+		case "K":
+			add(key.hash)
+		default:
+			add(tok)
+		}
+	}
+	ldir = dec[len(dec)-2]
+	decoded := "/" + strings.Join(dec, "/")
+	p := "/" + strings.Join(esc, "/")
+	tmpl := strings.Join(shape, "/")
+	// The instance a server that does not clean paths would see.
+	literal := "-"
+	if suffix := "/" + ldir + "/" + key.hash; (ldir == "ac" || ldir == "cas") && strings.HasSuffix(decoded, suffix) {
+		literal = strings.TrimSuffix(decoded[1:], suffix)
+		if literal == decoded[1:] { // "/ac/K" itself: no instance
+			literal = ""
+		}
+	}
 	var bases []string
 	if s.t.acURL != "" {
 		bases = append(bases, s.t.acURL)
@@ -644,12 +707,12 @@ func (s *seqCtx) uncleanOp() {
 		}
 		return nsAC
 	}
-	cdir, cinst, cok := parseClean(path.Clean(p))
-	ldir := "ac"
-	if strings.Contains(u.tmpl, "/cas/K") {
-		ldir = "cas"
-	}
+	cdir, cinst, cok := parseClean(path.Clean(decoded))
+	u := struct{ tmpl, literal string }{tmpl, literal}
 	method := lib.Pick(rng, []string{"GET", "HEAD", "GETZ", "PUT"})
+	if readOnly {
+		method = lib.Pick(rng, []string{"GET", "GET", "HEAD", "GETZ"})
+	}
 	s.r.Eval()
 	if method == "PUT" {
 		tag := s.tag("unclean")
@@ -691,6 +754,9 @@ func (s *seqCtx) uncleanOp() {
 	check := func(ns, inst string) {
 		sl, k := s.m.at(ns, key.hash, inst)
 		cands = append(cands, k)
+		if ns != nsCAS && o.zstd {
+			return // a compressed answer can only be the CAS's
+		}
 		if sl.free {
 			okAny = true
 		}
@@ -705,9 +771,6 @@ func (s *seqCtx) uncleanOp() {
 	}
 	if cok {
 		check(nsOf(cdir), cinst)
-	}
-	if nsOf(ldir) != nsCAS && o.zstd {
-		okAny = false
 	}
 	if !okAny {
 		s.r.Violation(fmt.Sprintf("C15:%s:%s:unclean-path:%s:aliases-another-slot", s.t.fixture, s.mangleName(), method),
